@@ -58,6 +58,9 @@ def guarded_execute(mod, plan):
     """Execute one plan; a wall-clock overrun is reported as a `<ID>.hang` violation."""
     old = signal.signal(signal.SIGALRM, _alarm)
     signal.setitimer(signal.ITIMER_REAL, RUN_WALL_LIMIT)
+    # the library draws no randomness today; should it start to (jittered back-off, random start counter ...), the
+    # global generator is part of the run: seeded from the plan so that a replay repeats it
+    random.seed("%s:%s" % (plan.get("_seed"), plan.get("_idx")))
     try:
         try:
             out = mod.execute(plan)
